@@ -124,13 +124,13 @@ struct Server {
     child: std::process::Child,
     stdin: Option<std::process::ChildStdin>,
     stdout: std::io::BufReader<std::process::ChildStdout>,
-    errpath: std::path::PathBuf,
+    /// the driver's stderr: an already unlinked temporary file
+    errfile: std::fs::File,
 }
 impl Drop for Server {
     fn drop(&mut self) {
         self.stdin.take();
         let _ = self.child.wait();
-        let _ = std::fs::remove_file(&self.errpath);
     }
 }
 thread_local! {
@@ -143,29 +143,33 @@ fn start_server() -> Result<Server, Failure> {
     let errpath = std::env::temp_dir().join(format!("c36-{}-{}.err", std::process::id(), n));
     let errfile = std::fs::OpenOptions::new()
         .create(true)
+        .read(true)
         .append(true)
         .open(&errpath)
         .map_err(|e| Failure::new("infrastructure:stderr-file", e.to_string()))?;
+    let child_err = errfile.try_clone().map_err(|e| Failure::new("infrastructure:stderr-file", e.to_string()))?;
+    let _ = std::fs::remove_file(&errpath);
     let mut child = Command::new(format!("{}/driver", out_dir()))
         .env("ASAN_OPTIONS", "detect_leaks=1:abort_on_error=0:exitcode=99:allocator_may_return_null=1")
         .env("UBSAN_OPTIONS", "halt_on_error=1:exitcode=98:print_stacktrace=1")
         .env("RUST_BACKTRACE", "0")
         .stdin(Stdio::piped())
         .stdout(Stdio::piped())
-        .stderr(errfile)
+        .stderr(child_err)
         .spawn()
         .map_err(|e| Failure::new("infrastructure:spawn-driver", format!("cannot start the C driver: {e}")))?;
     let stdin = child.stdin.take();
     let stdout = std::io::BufReader::new(child.stdout.take().unwrap());
-    Ok(Server { child, stdin, stdout, errpath })
+    Ok(Server { child, stdin, stdout, errfile })
 }
 
-fn take_stderr(path: &std::path::Path) -> String {
-    let s = std::fs::read(path).map(|b| String::from_utf8_lossy(&b).into_owned()).unwrap_or_default();
-    if let Ok(f) = std::fs::OpenOptions::new().write(true).open(path) {
-        let _ = f.set_len(0);
-    }
-    s
+fn take_stderr(f: &mut std::fs::File) -> String {
+    use std::io::{Read, Seek, SeekFrom};
+    let mut b = vec![];
+    let _ = f.seek(SeekFrom::Start(0));
+    let _ = f.read_to_end(&mut b);
+    let _ = f.set_len(0);
+    String::from_utf8_lossy(&b).into_owned()
 }
 
 fn run_server(program: &str) -> Result<Run, Failure> {
@@ -205,14 +209,14 @@ fn run_server(program: &str) -> Result<Run, Failure> {
         }
         if finished {
             let leaked = !stdout.ends_with("RESET leaks=0\n");
-            let stderr = if leaked { take_stderr(&srv.errpath) } else { String::new() };
+            let stderr = if leaked { take_stderr(&mut srv.errfile) } else { String::new() };
             return Ok(Run { stdout, stderr, code: Some(0), signal: None });
         }
         // the driver died in the middle of the program
         let mut srv = slot.take().unwrap();
         srv.stdin.take();
         let status = srv.child.wait().map_err(|e| Failure::new("infrastructure:wait-driver", e.to_string()))?;
-        let stderr = take_stderr(&srv.errpath);
+        let stderr = take_stderr(&mut srv.errfile);
         Ok(Run { stdout, stderr, code: status.code(), signal: status.signal() })
     })
 }
